@@ -129,6 +129,14 @@ def programs(draw):
             if draw(st.integers(0, 3)) == 0:
                 steps.append(["build"])
         steps.append(["build"])
+        if draw(st.booleans()):
+            # ... and the description lives on: a name is bound to another task (another signature) after that build, then it is
+            # built again -- everything has to be validated against what the names stand for NOW
+            steps.append(["node", draw(st.sampled_from(used)), draw(st.integers(0, ntasks - 1))])
+            if draw(st.booleans()):
+                steps.append(["build"])
+                steps.append(["node", draw(st.sampled_from(used)), draw(st.integers(0, ntasks - 1))])
+            steps.append(["build"])
         return {"funcs": funcs, "tasks": tasks, "steps": steps}
     for _ in range(draw(st.integers(1, 10))):
         k = draw(st.sampled_from(["node", "node", "edge", "edge", "edge", "build"]))
